@@ -50,6 +50,7 @@ def _same(a, b):
 
 class C13(object):
     id = 'C13'
+    anchors = ('list_tokens', 'replace_token', 'replace_token_from_lookup')
     title = 'Name substitution is hygienic and simultaneous'
     rule = ('cases are batches of %d random expressions (arithmetic, calls, lag notation, lists, powers, '
             'comparisons, attributes, strings, keywords, all number literal forms, unicode and '
